@@ -338,6 +338,10 @@ impl<'s> Rw<'s> {
         } else if last == "anyhow" {
             let (ma, mb) = br(mac.span());
             self.edit(ma, mb, "anyhow_error()", "R12", &format!("anyhow! text dropped at {}", self.loc(whole)));
+        } else if last == "format" {
+            // R12: a formatted string is opaque text (no contract speaks about string contents)
+            let (ma, mb) = br(mac.span());
+            self.edit(ma, mb, "format_string()", "R12", &format!("format! -> opaque String at {}", self.loc(whole)));
         } else if last == "pin_mut" {
             let id = squash(&mac.tokens.to_string());
             self.pinned.insert(id.clone());
